@@ -43,6 +43,10 @@ POSITIONAL = {
     'target-and-from-subquery': ('SELECT a + %s AS r FROM (SELECT b AS a FROM #t WHERE b > %s) WHERE a < %s', 3),
     'target-and-from-subquery-2': ('SELECT %s - a AS r, %s AS q FROM (SELECT a - %s AS a FROM #t)', 3),
     'group-having': ('SELECT a IS NULL AS k, sum(a + %s) AS s FROM #t GROUP BY 1 HAVING count(b) > %s', 2),
+    # the same source text in two clauses, bound to different values
+    'same-text-target-order': ('SELECT a, a - %s FROM #t ORDER BY a - %s, b', 2),
+    'same-text-target-where': ('SELECT a < %s FROM #t WHERE a < %s', 2),
+    'same-text-twice-in-targets': ('SELECT a + %s, a + %s FROM #t', 2),
 }
 NAMED = {
     'named2': ('SELECT %(x)s - %(y)s AS r, a FROM #t', ['x', 'y']),
@@ -346,6 +350,9 @@ LEDGER_STATEMENTS = [
     ('SELECT account, balance FROM CLEAR WHERE account ~ %s', ('Assets',)),
     ('JOURNAL "Assets" FROM OPEN ON 2019-01-15', None),
     ('SELECT date, account FROM has_account("Assets:Bank") CLOSE', None),
+    # one pattern text used by the case-insensitive operator and by the case-sensitive function
+    ('SELECT DISTINCT account FROM #postings WHERE account ~ %s ORDER BY account', ('bank',)),
+    ('SELECT DISTINCT account, grep(%s, account) AS m, subst(%s, "_", account) AS u ORDER BY account', ('bank', 'bank')),
 ]
 
 
